@@ -127,6 +127,17 @@ func linModel(init map[string]string) porcupine.Model {
 					}
 				}
 				return []interface{}{state}
+			case "has":
+				if out.Err != "" {
+					return []interface{}{state}
+				}
+				for i, k := range in.Keys {
+					_, ok := st[k]
+					if (out.Vals[i] == "1") != ok {
+						return nil
+					}
+				}
+				return []interface{}{state}
 			case "scan":
 				if out.Err != "" || string(encodeState(st)) == out.Vals[0] {
 					return []interface{}{state}
@@ -334,6 +345,14 @@ func runConc(p *concParams, prefix []int, extra func(w *harness.World, cr *concR
 						call := tick()
 						v, e := getVal(db.Get([]byte(arg), nil))
 						record(ci, linInput{Kind: "get", Keys: []string{arg}}, call, linOutput{Vals: []string{v}, Err: e}, op)
+					case "has":
+						call := tick()
+						ok, err := db.Has([]byte(arg), nil)
+						v := "0"
+						if ok {
+							v = "1"
+						}
+						record(ci, linInput{Kind: "has", Keys: []string{arg}}, call, linOutput{Vals: []string{v}, Err: errStr(err)}, op)
 					case "snapget":
 						keys := strings.Split(arg, ",")
 						call := tick()
